@@ -737,17 +737,17 @@ func (s *Source) UnmarshalJSON(data []byte) error {
 // MarshalJSON encodes the receiver object to a JSON document.
 func (s Source) MarshalJSON() ([]byte, error) {
 	b := make([]byte, 0)
-	empty := true
+	notEmpty := false
 	JSONWrite(&b, '{')
 	if len(s.MediaType) > 0 {
 		if v, err := s.MediaType.MarshalJSON(); err == nil && len(v) > 0 {
-			empty = !JSONWriteProp(&b, "mediaType", v)
+			notEmpty = JSONWriteProp(&b, "mediaType", v)
 		}
 	}
 	if len(s.Content) > 0 {
-		empty = !JSONWriteNaturalLanguageProp(&b, "content", s.Content)
+		notEmpty = JSONWriteNaturalLanguageProp(&b, "content", s.Content) || notEmpty
 	}
-	if !empty {
+	if notEmpty {
 		JSONWrite(&b, '}')
 		return b, nil
 	}
